@@ -110,6 +110,13 @@ Definition case_ok (c : jv * result * (list bool * bool)) : bool :=
   (negb cmp || result_eqb (verify_and_build doc) obs) &&
   C13_ok doc obs &&
   bools_eqb (schema_bits doc) js.
+Definition case_corr (c : jv * result * (list bool * bool)) : bool :=
+  let '(doc, obs, (js, cmp)) := c in
+  (negb cmp || result_eqb (verify_and_build doc) obs) && bools_eqb (schema_bits doc) js.
+Definition case_mon (c : jv * result * (list bool * bool)) : bool :=
+  let '(doc, obs, _) := c in C13_ok doc obs.
+Definition case_notk5 (c : jv * result * (list bool * bool)) : bool :=
+  let '(doc, obs, _) := c in negb (sig_K5 doc obs).
 Definition case_detail (c : jv * result * (list bool * bool)) :=
   let '(doc, obs, (js, cmp)) := c in
   (verify_and_build doc, (C13_ok doc obs, sig_K5 doc obs), schema_bits doc).
@@ -1288,28 +1295,47 @@ def explain(lit):
     return common.coq_eval("c13_detail", HEADER, "case_detail %s" % lit, timeout=300)
 
 
-def judge(ck, recs, lits, bad, errs, limit=12):
-    import re
-    for n, i in enumerate(bad):
-        r = recs[i]
-        cj = case_json(r["tag"], r["doc"], r["obs"], r["detail"])
-        if n >= limit:
-            ck.mismatch("further failing case %s" % r["tag"], cj)
-            continue
-        det = explain(lits[i])
-        m = re.search(r"\(C13_ok|,\s*\((true|false),\s*(true|false)\)", det)
-        mm = re.search(r",\s*\((true|false),\s*(true|false)\)\s*,", det.replace("\n", " "))
-        mon, k5 = (mm.group(1) == "true", mm.group(2) == "true") if mm else (None, None)
-        what = "%s: implementation %s (%s)" % (r["tag"], r["obs"][0], r["detail"])
-        if mon is False and k5:
-            ck.known_hit("K5-dupkeys", "a mapping that repeats a key is merged silently by the YAML loader "
-                         "before verification (witness corpus/C13/k5_duplicate_yaml_keys.json)")
-        elif mon is False:
-            ck.violation(what + " -- C13_ok is false on the implementation's outcome", cj)
-        else:
-            ck.mismatch(what + " -- model/implementation or interpreter/jsonschema disagree", cj, det[-1500:])
+K5_ID = "K5-dupkeys"
+K5_WHAT = ("a mapping that repeats a key is merged silently by the YAML loader before verification "
+           "(witness corpus/C13/k5_duplicate_yaml_keys.json)")
+
+
+def judge(ck, recs, lits, bad, errs, limit=4):
+    """classify the failing cases inside Coq (three boolean passes over the
+    failing subset), explain only a few of them"""
     for e in errs:
         ck.mismatch("coqc failed on a cases file", None, e[1])
+    if not bad:
+        return
+    sub = [lits[i] for i in bad]
+    ty = "jv * result * (list bool * bool)"
+    # failing(case_corr) = model/implementation or interpreter/jsonschema disagree
+    corr_bad, e1 = common.coq_failing("c13_j1", HEADER, ty, "case_corr", sub, shard=250, timeout=1500)
+    # failing(case_mon)  = the monitor is false on the implementation's outcome
+    mon_bad, e2 = common.coq_failing("c13_j2", HEADER, ty, "case_mon", sub, shard=250, timeout=1500)
+    # failing(case_notk5) = the known-finding signature K5 holds
+    k5, e3 = common.coq_failing("c13_j3", HEADER, ty, "case_notk5", sub, shard=250, timeout=1500)
+    for e in e1 + e2 + e3:
+        ck.mismatch("coqc failed while classifying failing cases", None, e[1])
+    corr_bad, mon_bad, k5 = set(corr_bad), set(mon_bad), set(k5)
+    explained = 0
+    for n, i in enumerate(bad):
+        r = recs[i]
+        what = "%s: implementation %s (%s)" % (r["tag"], r["obs"][0], r["detail"])
+        cj = None
+        if n in mon_bad:
+            if n in k5:
+                ck.known_hit(K5_ID, K5_WHAT)
+            else:
+                cj = case_json(r["tag"], r["doc"], r["obs"], r["detail"])
+                ck.violation(what + " -- C13_ok is false on the implementation's outcome", cj)
+        if n in corr_bad or (n not in mon_bad):
+            cj = cj or case_json(r["tag"], r["doc"], r["obs"], r["detail"])
+            det = ""
+            if explained < limit:
+                explained += 1
+                det = explain(lits[i])[-1500:]
+            ck.mismatch(what + " -- model/implementation or interpreter/jsonschema disagree", cj, det)
 
 
 def run(ck):
